@@ -31,7 +31,7 @@ ASSUMPTIONS = [
 ]
 
 MUTS = ('rename', 'const', 'op', 'new_expr', 'foreign_expr', 'dup_expr', 'swap_list', 'reverse_list', 'del_elem', 'ins_stmt', 'dup_stmt', 'del_stmt', 'foreign_stmt', 'move_stmt',
-        'clear_list', 'ins_elem', 'del_any_elem')
+        'clear_list', 'ins_elem', 'del_any_elem', 'const_kind', 'dict_del', 'foreign_swapped')
 
 
 def params(tier):
@@ -200,6 +200,73 @@ def apply_mut(tree, mut, touched, kinds):
             # do not create cycles: new must not contain p
             if any(n is p for n in ast.walk(new)):
                 return False
+
+        setslot(p, f, i, new)
+    elif kind == 'const_kind':
+        cs = [n for n in ast.walk(tree) if isinstance(n, ast.Constant)]
+        cs = [n for n in cs if not any(isinstance(p, (ast.JoinedStr, ast.pattern)) and any(c is n for c in ast.walk(p)) for p in ast.walk(tree) if isinstance(p, (ast.JoinedStr, ast.pattern)))]
+
+        if not cs:
+            return False
+
+        n = cs[a % len(cs)]
+        mark(n)
+        new = (True, None, 7, 2.5, b'b', 1j, 0, 'txt', False, 1)[b % 10]  # Ellipsis: known finding C13-constant-to-ellipsis (mutation 'const_ellipsis' below, never drawn)
+
+        if type(new) is type(n.value) and new == n.value:
+            return False
+
+        n.value = new
+        n.kind = None
+    elif kind == 'const_ellipsis':
+        cs = [n for n in ast.walk(tree) if isinstance(n, ast.Constant)]
+
+        if not cs:
+            return False
+
+        n = cs[a % len(cs)]
+        mark(n)
+        n.value = ...
+        n.kind = None
+    elif kind == 'dict_del':
+        ds = [n for n in ast.walk(tree) if isinstance(n, ast.Dict) and len(n.keys) >= 2]
+
+        if not ds:
+            return False
+
+        n = ds[a % len(ds)]
+        mark(n)
+
+        if b % 3 == 0 and any(k is None for k in n.keys) and any(k is not None for k in n.keys):  # keep only the ** entries
+            keep = [i for i, k in enumerate(n.keys) if k is None]
+            n.keys = [n.keys[i] for i in keep]
+            n.values = [n.values[i] for i in keep]
+        else:
+            i = b % len(n.keys)
+            del n.keys[i]
+            del n.values[i]
+    elif kind == 'foreign_swapped':
+        slots = expr_slots(tree)
+
+        if not slots:
+            return False
+
+        p, f, i = slots[a % len(slots)]
+        mark(p)
+        which = b % 3
+
+        if which == 0:  # children of a node of another tree exchanged by pure AST edits before one of them is transplanted
+            d = FST('r = alpha  +  beta * 2', 'exec').a.body[0].value
+            d.left, d.right = d.right, d.left
+            new = d.left
+        elif which == 1:
+            d = FST('r = one  if  cond  else  other . attr', 'exec').a.body[0].value
+            d.body, d.orelse = d.orelse, d.body
+            new = d.body
+        else:
+            m = FST('u = first ( 1 )\nv = second [ 2 ]', 'exec').a
+            m.body[0].value, m.body[1].value = m.body[1].value, m.body[0].value
+            new = m.body[0].value
 
         setslot(p, f, i, new)
     elif kind in ('clear_list', 'ins_elem', 'del_any_elem'):
@@ -409,9 +476,9 @@ def execute(case, ctx):
             while lo > 1 and lines[lo - 2].lstrip().startswith('#'):
                 lo -= 1
 
-            text = '\n'.join(lines[lo - 1:r.end_lineno])
+            text = '\n'.join(l.rstrip() for l in lines[lo - 1:r.end_lineno])  # trailing whitespace after a statement is not part of its text
 
-            if text not in out.src:
+            if text not in '\n'.join(l.rstrip() for l in out.src.split('\n')):
                 raise Violation('C13.untouched_text', f'{desc}: untouched top-level statement #{k} (not adjacent to any change) lost its original text:\n{text[:300]}\n--- reconciled ---\n{out.src[:700]}',
                                 f'text:{site}')
 
